@@ -993,4 +993,107 @@ theorem view_canonOk (ts : List XTok) (hw : ∀ x ∈ ts, WfOutP x) (hnc : ∀ d
   simp only [rawCdEnd, List.any_eq_false] at hr
   simpa using hr run hrun
 
+
+/-! ### the reader's view only regroups character data and PI data -/
+
+def notText : XTok → Bool
+  | .text _ => false
+  | _ => true
+
+theorem skeleton_flushText (acc : List Char) (k : List XTok) :
+    (dropPi false (flushText acc k)).filter notText = (dropPi false k).filter notText := by
+  unfold flushText
+  split
+  · rfl
+  · simp [dropPi, notText]
+
+/-- **view_skeleton**: for every stream of the lexer contract the reader's view has the same markup skeleton — the
+same start tags, attributes (outside PIs), `>` / `/>`, end tags, CDATA sections, comments, DOCTYPE, PI targets and
+`?>`, in the same order; only `text` tokens are merged and the items of a PI are concatenated. -/
+theorem viewGo_skeleton : ∀ (ts : List XTok),
+    (∀ acc, lexOk .content ts = true →
+      (dropPi false (viewGo (.txt acc) ts)).filter notText = (dropPi false ts).filter notText) ∧
+    (lexOk .tag ts = true →
+      (dropPi false (viewGo (.txt []) ts)).filter notText = (dropPi false ts).filter notText) ∧
+    (∀ d, lexOk .pi ts = true →
+      (dropPi true (viewGo (.pi d) ts)).filter notText = (dropPi true ts).filter notText) := by
+  intro ts
+  induction ts with
+  | nil =>
+    refine ⟨?_, ?_, ?_⟩
+    · intro acc _
+      simp only [viewGo]
+      exact skeleton_flushText acc []
+    · intro h; simp [lexOk] at h
+    · intro d h; simp [lexOk] at h
+  | cons t r ih =>
+    obtain ⟨ih1, ih2, ih3⟩ := ih
+    refine ⟨?_, ?_, ?_⟩
+    · intro acc h
+      cases t with
+      | text d =>
+        simp only [lexOk, Bool.and_eq_true] at h
+        simp only [viewGo, dropPi, List.filter_cons, notText, Bool.false_eq_true, if_false]
+        exact ih1 _ h.2
+      | comment d =>
+        simp only [lexOk] at h
+        simp only [viewGo, skeleton_flushText, dropPi, List.filter_cons, notText, if_true, ih1 [] h]
+      | cdata d t' =>
+        simp only [lexOk, Bool.and_eq_true] at h
+        simp only [viewGo, skeleton_flushText, dropPi, List.filter_cons, notText, if_true, ih1 [] h.2]
+      | doctype d =>
+        simp only [lexOk, Bool.and_eq_true] at h
+        simp only [viewGo, skeleton_flushText, dropPi, List.filter_cons, notText, if_true, ih1 [] h.2]
+      | endTag d n =>
+        simp only [lexOk, Bool.and_eq_true] at h
+        simp only [viewGo, skeleton_flushText, dropPi, List.filter_cons, notText, if_true, ih1 [] h.2]
+      | startTag n =>
+        simp only [lexOk, Bool.and_eq_true] at h
+        simp only [viewGo, skeleton_flushText, dropPi, List.filter_cons, notText, if_true, ih2 h.2]
+      | startTagPI n =>
+        simp only [lexOk, Bool.and_eq_true] at h
+        simp only [viewGo, skeleton_flushText, dropPi, List.filter_cons, notText, if_true, ih3 [] h.2]
+      | attr n v => simp [lexOk] at h
+      | attrBare d n => simp [lexOk] at h
+      | startTagClose => simp [lexOk] at h
+      | startTagCloseVoid => simp [lexOk] at h
+      | startTagClosePI => simp [lexOk] at h
+    · intro h
+      cases t with
+      | attr n v =>
+        simp only [lexOk, Bool.and_eq_true] at h
+        simp only [viewGo, skeleton_flushText, dropPi, List.filter_cons, notText, if_true, ih2 h.2]
+      | startTagClose =>
+        simp only [lexOk] at h
+        simp only [viewGo, skeleton_flushText, dropPi, List.filter_cons, notText, if_true, ih1 [] h]
+      | startTagCloseVoid =>
+        simp only [lexOk] at h
+        simp only [viewGo, skeleton_flushText, dropPi, List.filter_cons, notText, if_true, ih1 [] h]
+      | _ => simp [lexOk] at h
+    · intro d h
+      cases t with
+      | attr n v =>
+        simp only [lexOk, Bool.and_eq_true] at h
+        simp only [viewGo, dropPi]
+        exact ih3 _ h.2
+      | attrBare d' x =>
+        simp only [lexOk, Bool.and_eq_true] at h
+        simp only [viewGo, dropPi]
+        exact ih3 _ h.2
+      | startTagClosePI =>
+        simp only [lexOk] at h
+        have hf : ∀ k, (dropPi true (flushPi d k)).filter notText = (dropPi true k).filter notText := by
+          intro k
+          unfold flushPi
+          split
+          · rfl
+          · simp [dropPi]
+        simp only [viewGo, hf, dropPi, List.filter_cons, notText, if_true, ih1 [] h]
+      | _ => simp [lexOk] at h
+
+theorem view_skeleton (ts : List XTok) (h : lexOk .content ts = true) : skeleton (view ts) = skeleton ts := by
+  have := (viewGo_skeleton ts).1 [] h
+  simp only [skeleton, view]
+  exact this
+
 end Verif.Proofs.C09XmlLex
